@@ -115,6 +115,19 @@ theorem delivered_is_prefix {cfg : Cfg} {s : State} (hr : Reach (Batcher.lts cfg
   refine ⟨u.hand ++ u.buf ++ pend s i, ?_⟩
   rw [← (same_sequence hr hi hm).1]; simp
 
+/-- **same_sequence** for EVERY subscriber, also one that has left or missed items: what it has
+received is a subsequence of the common sequence from its joining point — the same order as
+everybody else's — and contains no item twice (at most once for leavers). -/
+theorem delivered_is_subsequence {cfg : Cfg} {s : State} (hr : Reach (Batcher.lts cfg) s) {i : Nat} {u : Sub}
+    (hi : s.subs[i]? = some u) :
+    u.delivered.Sublist (s.out.drop u.joinedAt) ∧ u.delivered.Nodup := by
+  have h := (invSubl hr i u hi).2
+  have h1 : u.delivered.Sublist (u.seq ++ pend s i) := by
+    simp only [Sub.seq, List.append_assoc]
+    exact List.sublist_append_left _ _
+  have h2 := h1.trans h
+  exact ⟨h2, h2.nodup (((invOut hr).2.2.1).sublist (List.drop_sublist _ _))⟩
+
 /-- A subscriber misses an item only after its context has ended or the batcher was closed:
 "once per subscriber that stays subscribed". -/
 theorem missed_only_after_departure {cfg : Cfg} {s : State} (hr : Reach (Batcher.lts cfg) s) {u : Sub}
